@@ -3,7 +3,7 @@
 Require Import ExtrOcamlBasic.
 From Coq Require Import ZArith List.
 From ZV.Mem Require Import CompressBound CompressCalls CompressSplit.
-From ZV.Codec Require Import FrameInspect.
+From ZV.Codec Require Import FrameInspect LegacyInspect.
 Extraction "Extract/out/c06model.ml"
   bound compressBound_fn raw_frame replay_frame worst_frame suff_capacity cctx_block_size optimal_block_size nb_blocks
   frame_header_size get_frame_header get_frame_content_size find_frame_size_info find_frame_compressed_size
@@ -11,4 +11,5 @@ Extraction "Extract/out/c06model.ml"
   ser_frames inplace_decode margin_of regen_frames bound_frames
   no_compress_block rle_compress_block write_frame_header write_last_empty_block write_skippable_frame read_skippable_frame
   raw_two_calls mt_raw_frame
-  derive_table emitted_partitions weak_block_cost max_partitions kb_blocks MAX_NB_BLOCK_SPLITS MIN_SEQUENCES_BLOCK_SPLITTING.
+  derive_table emitted_partitions weak_block_cost max_partitions kb_blocks MAX_NB_BLOCK_SPLITS MIN_SEQUENCES_BLOCK_SPLITTING
+  legacy_find lg_header_size LG_BLOCKSIZE.
